@@ -104,6 +104,20 @@ package keeper
 //@   modifies nothing
 //@   ensures [C09.sig] err == nil ==> sigDid == owner && requestSignedBy(sigDid)
 
+// UpdataPermission: the owner of a data model, by a signed proposal relayed through a gateway, replaces the model's grant lists.
+// The closure checkDid (a loop over a grantee list calling did.ValidDid) is abstracted by its write set: it writes only the
+// captured variable err and calls only read-only functions.
+//@ func (msgServer) UpdataPermission(goCtx, msg) (resp, err)
+//@   requires msg != nil
+//@   modifies Metadata[msg.Proposal.DataId]
+//@   ensures [C09.updataperm.auth] err == nil ==> requestSignedBy(msg.Proposal.Owner) && old(has(Metadata, msg.Proposal.DataId)) && old(Metadata[msg.Proposal.DataId].Owner) == msg.Proposal.Owner
+//@   ensures [C09.updataperm.fields] err == nil ==> has(Metadata, msg.Proposal.DataId)
+//@       && Metadata[msg.Proposal.DataId] == with(with(old(Metadata[msg.Proposal.DataId]), ReadonlyDids, msg.Proposal.ReadonlyDids), ReadwriteDids, msg.Proposal.ReadwriteDids)
+//@   ensures [C09.updataperm.err] err != nil ==> Metadata[msg.Proposal.DataId] == old(Metadata[msg.Proposal.DataId]) && (has(Metadata, msg.Proposal.DataId) <==> old(has(Metadata, msg.Proposal.DataId)))
+//@   ensures [C10.updataperm.actor] err == nil ==> actsFor(msg.Creator, msg.Provider, old(has(Node, msg.Provider)), old(Node[msg.Provider]))
+//@   loop L1 invariant -1 <= rangeindex
+//@   loop L1 invariant isProvider ==> contains(provider.TxAddresses, msg0.Creator)
+
 // Terminate: the owner or a read-write grantee ends a data model; all its orders are settled and its shards removed.
 //@ func (msgServer) Terminate(goCtx, msg) (resp, err)
 //@   requires msg != nil
